@@ -72,9 +72,12 @@ func lmtpContractCalls(ma, mb int) [][]int {
 
 // a status value that identifies the call it was given to
 func lmtpStatus(rng *rand.Rand, i int) BErr {
-	switch rng.Intn(6) {
+	switch rng.Intn(7) {
 	case 0:
 		return BNil
+	case 6:
+		// the code the server uses for its own "closing the channel" replies: here it is just a status
+		return BSmtp(421, [3]int{4, 3, 2}, fmt.Sprintf("mailbox %d is busy", i))
 	case 1:
 		return BPlain(fmt.Sprintf("plain failure %d", i))
 	case 2:
@@ -90,7 +93,9 @@ func lmtpRet(rng *rand.Rand, fail bool) BErr {
 	if !fail {
 		return BNil
 	}
-	switch rng.Intn(4) {
+	switch rng.Intn(5) {
+	case 4:
+		return BSmtp(421, [3]int{4, 3, 2}, "not now")
 	case 0:
 		return BPlain("backend said no: 100% sure, see %20 and %v")
 	case 1:
